@@ -15,6 +15,11 @@ def main():
         sys.exit(subprocess.call([sys.executable, os.path.join(HERE, "driver.py"), prop, "--tier", tier, "--level", level]))
     if prop in ENGINE_K:
         s_exit = subprocess.call([sys.executable, os.path.join(HERE, "driver.py"), prop, "--tier", tier, "--level", "model_checking"])
+        if s_exit == 1 and os.environ.get("VERIF_MATRIX_FAST") == "1":
+            # seeded-change bookkeeping only (seeded/matrix.py): the native companion already reported a reproduced
+            # violation, so the exit code is 1 whatever the Kani harnesses say; they are skipped to save 5-25 minutes
+            print("Engine K skipped (VERIF_MATRIX_FAST=1 and the Engine-S part already exits 1)")
+            sys.exit(1)
         k_exit = subprocess.call([sys.executable, os.path.join(HERE, "kani_driver.py"), prop, "--tier", tier, "--s-exit", str(s_exit)])
         sys.exit(1 if 1 in (s_exit, k_exit) else (2 if 2 in (s_exit, k_exit) else 0))
     if prop == "C14":
